@@ -184,5 +184,17 @@ LEVEL_TEXT = {
                      'Pigeonhole for get_empty_slot is supplied as a witness variable.', ref='DESIGN.md 4/C19'),
 }
 
-_PENDING = 'check under construction in this round (see DESIGN.md section 8 for the order of work); not claimed yet'
-NOT_APPLICABLE = {('C%02d' % i): _PENDING for i in range(1, 21)}
+_SCAN = ('scan/iscan build their results in std::string / std::vector<std::tuple<std::string,...>> / std::deque objects that live in untyped heap blocks; '
+         'with every external stubbed and SSO-only strings, CBMC symex of the real scan on the smallest shape T1(2) still does not finish in 10 minutes '
+         '(measured, DESIGN.md 10.2), so no sound bounded verdict is available with this technique')
+_TREE_S = ('needs a sequentialized schedule over whole tree operations: the kind-S encoding exists (harness/s_point.cpp, nested coroutines) but symex of get||remove on T1(2) '
+           'alone does not finish in the budget once the version word flows through symbolic contexts (DESIGN.md 10.2); the lock/session/epoch protocols it builds on are decided under C17, C14, C07')
+NOT_APPLICABLE = {
+    'C01': _TREE_S,
+    'C03': _SCAN,
+    'C04': _TREE_S + '; and ' + _SCAN,
+    'C06': _TREE_S + '; and ' + _SCAN,
+    'C10': _SCAN + ' (iscan additionally uses std::function and std::deque)',
+    'C13': 'the storage API composes several tree operations on the storages tree plus scan (list_storages, destroy) in one call: outside the reach established for single operations (DESIGN.md 10.2); '
+           'the tree operations it is built from are decided under C02',
+}
